@@ -43,6 +43,10 @@ type Opts struct {
 	OnFlush func(s *drive.Srv, m *model.RIB, step int, st hgen.Step, observe func(when string) bool, v *ev.Verdict) (flushed []string, ok bool)
 	// Final is called once after the last step, while the session is still open.
 	Final func(s *drive.Srv, m *model.RIB, v *ev.Verdict)
+	// Net: drive the server through real gRPC over bufconn ("L3") instead of the
+	// in-process streams. Fatal must be 0 (a response produced while the RPC ends
+	// is not observable over a real transport).
+	Net bool
 	// AfterBatch is called at every observation point.
 	AfterBatch func(s *drive.Srv, m *model.RIB, v *ev.Verdict, when string)
 }
@@ -124,6 +128,10 @@ func RunHistory(h hgen.History, o Opts) (*ev.Verdict, *l1.Trace) {
 		}
 	} else {
 		s = drive.NewSrv(h.FwdRefs, hgen.NIs[1:], o.SrvOpts...)
+	}
+	if o.Net {
+		s.UseNet()
+		defer s.Shutdown()
 	}
 	m := model.New("DEFAULT", hgen.NIs[1:], h.FwdRefs)
 	fold := obs.State{}
